@@ -7,6 +7,7 @@ exit 2  BUILD-ERROR / HARNESS-ERROR / budget not reached — never a VIOLATION
 
 import argparse
 import atexit
+import hashlib
 import json
 import os
 import shutil
@@ -292,7 +293,9 @@ def main():
         small["original_ops"] = len(case["ops"])
         k = match_known(machine.pid, small, klass, known)
         os.makedirs(os.path.join(HERE, "replays"), exist_ok=True)
-        path = os.path.join(HERE, "replays", "%s-%d.json" % (machine.pid, case["seed"]))
+        # content-addressed name: two checks of one property running side by side (sensitivity runs) never share a file
+        tag = hashlib.sha1(json.dumps([small["config"], small["ops"], klass], sort_keys=True).encode()).hexdigest()[:8]
+        path = os.path.join(HERE, "replays", "%s-%d-%s.json" % (machine.pid, case["seed"], tag))
         dump_case(small, path)
         ok, out = verify_replay_fresh(machine.pid, path)
         if not ok:
